@@ -377,8 +377,8 @@ impl RecvStream {
             return BufResult(Ok(0), buf);
         }
         let len = (end - start) as usize;
-        let cap = buf.buf_capacity();
-        let needed = len.saturating_sub(cap);
+        // `reserve` is about the capacity beyond the initialised part.
+        let needed = len.saturating_sub(buf.buf_len());
         if needed > 0
             && let Err(e) = buf.reserve(needed)
         {
